@@ -22,6 +22,40 @@ CHECKS = {
         design='DESIGN.md section 9 (C01)', technique='TLA+ spec + TLC exhaustive enumeration replayed into code + TLC trace validation'),
 }
 
+def core(text):
+    return dict(text=text, design='DESIGN.md section 9',
+                technique='TLA+ spec + TLC model checking of Step theorems + TLC-enumerated edges replayed into code + TLC trace validation')
+
+
+CHECKS.update({
+    'C03': core("Model-based: (A) TLC model-checks the frame/raise/position theorems of the Step function on every mutator call "
+                "over every content up to 2-3 bits; (B) TLC enumerates every (content, mutator call) edge with arguments in, at "
+                "and beyond the ends, each replayed on BitArray and BitStream; (C) seeded random sequences of mutations on one "
+                "object at byte/word/kilobit lengths. TLC judges return value, new content, pos and every other live object "
+                "after each call. Exhaustive within the bounds, sampled beyond."),
+    'C06': core("Model-based: (A) TLC model-checks 0<=pos<=len, read/peek consumption and the documented position movements on "
+                "every stream/mutator call from every (content up to 3 bits, pos); (B) the same edges replayed on ConstBitStream "
+                "and BitStream from every position; (C) seeded random sequences of stream operations. Token reads (ue, uint:n, "
+                "...) are decided under C02/C10; this check covers integer-count reads, seeks, finds and all mutators."),
+    'C07': core("Model-based: the brute-force definition (set comprehension Matches in BitSeq.tla) is evaluated by TLC on every "
+                "recorded search call: exhaustively for every content up to 2-3 bits x pattern x window x count, and on seeded "
+                "random/periodic/constant data up to 300 bits (thorough: 20000 bits) with planted aligned/unaligned occurrences "
+                "under every bytealigned / options.bytealigned combination."),
+    'C12': core("Model-based: LSB0 semantics are defined in the spec as Rev o msb0 o Rev; TLC model-checks the mirror law on the "
+                "Step function for every call family, every TLC-enumerated edge (slices, mutators, searches, stream reads) is "
+                "replayed with options.lsb0 set, plus seeded random programs under lsb0 and programs toggling the option "
+                "between calls on the same objects."),
+    'C13': core("Model-based: every pair of contents up to 3-4 bits x ==, !=, hash equality, set/dict membership, non-promotable "
+                "right operands, hashability and copies on all four classes (TLC-enumerated), plus seeded random groups of equal "
+                "objects built by different classes/routes/positions at lengths around the 2000-bit hash sampling threshold; "
+                "TLC judges each outcome against content equality."),
+    'C16': core("Model-based: TLC model-checks involution, De Morgan, idempotence, s^s=0 and agreement with integer arithmetic for "
+                "all pairs up to 5 (thorough 8) bits and all shift counts; every operator call (plain, reflected, in-place, self "
+                "operand, all shift counts -2..len+2) on every content up to 3 bits is replayed on all four classes in both bit "
+                "numbering modes; seeded random programs at word-boundary lengths. TLC judges result, class, pos, exception "
+                "category and that operands are unchanged."),
+})
+
 NOT_YET = {
 }
 
